@@ -37,6 +37,7 @@ class Cfg:
         self.downto = True
         self.data_all = False       # user data also on netlist, libraries, ports, cables
         self.late = False           # edits of definitions after they were instanced
+        self.lib_monotone = False   # library index never decreases along the definition order
         self.twins = False          # same-named, same-shaped definitions in different libraries
         self.share = False          # bias children towards definitions that are already instanced
         self.__dict__.update(kw)
@@ -112,8 +113,10 @@ def recipes(draw, cfg=None):
     used_d = [set() for _ in range(nlibs)]
     flat = []  # (lib index, def recipe)
     used_refs = []
+    prev_li = 0
     for di in range(ndefs):
-        li = draw(st.integers(0, nlibs - 1))
+        li = draw(st.integers(prev_li if cfg.lib_monotone else 0, nlibs - 1))
+        prev_li = li
         d = {"name": _unique(draw, used_d[li], cfg.alphabet, cfg.unnamed, "_d")}
         used_p, used_c, used_i = set(), set(), set()
         nports = draw(st.integers(0, cfg.max_ports))
